@@ -112,7 +112,12 @@ class BoundTemplate:
             globals=self.make_globals(dict(*args, **kwargs)),
         )
         buf = self._get_buffer()
-        self.render_with_context(context, buf)
+        try:
+            self.render_with_context(context, buf)
+        except ContextDepthError as err:
+            # The whole render stops where the limit was reached. What that means
+            # for the caller depends on the mode, as for any other error.
+            self.env.error(err)
         return buf.getvalue()
 
     async def render_async(self, *args: Any, **kwargs: Any) -> str:
@@ -122,7 +127,10 @@ class BoundTemplate:
             globals=self.make_globals(dict(*args, **kwargs)),
         )
         buf = self._get_buffer()
-        await self.render_with_context_async(context, buf)
+        try:
+            await self.render_with_context_async(context, buf)
+        except ContextDepthError as err:
+            self.env.error(err)
         return buf.getvalue()
 
     def _get_buffer(self) -> StringIO:
